@@ -323,6 +323,7 @@ def run(prog, ctx):
 
 
 def check_point_count(prog, ctx):
+    check_one_key_per_point(prog, ctx)
     gd = prog.func("GridOperation.Integration.get_distinct_points")
     ini = prog.func("GridOperation.Integration.initialize")
     ctx.touch(gd, ini)
@@ -363,6 +364,17 @@ def check_point_count(prog, ctx):
     ctx.check(okt, "C13.D6", R.key_of(tc, "driver-count-from-operation"), tc.loc(),
               "get_total_num_points(distinct_function_evals=True) asks the operation for its distinct points",
               "get_total_num_points no longer returns operation.get_distinct_points(scheme) for distinct_function_evals=True")
+
+
+def check_one_key_per_point(prog, ctx):
+    """C13.D6 (shared with C12.D4): the point count the driver reports and tests against max_evaluations is the size of the integrand's
+    evaluation dictionary; it equals the number of distinct evaluated points only if every path of Function.__call__ stores an
+    evaluation under the point itself (two conventions for the key -- rounded on one path, raw on the other -- count one point twice)."""
+    from .C12 import check_cache_discipline, BASE
+    base = prog.cls(BASE)
+    call = prog.func(BASE + ".__call__")
+    ctx.touch(call)
+    check_cache_discipline(prog, ctx, base, call, call.params[1], "C13.D6")
 
 
 def _abstract_result(t):
